@@ -19,7 +19,10 @@ func InitGenesis(ctx sdk.Context, k keeper.Keeper, genState types.GenesisState) 
 			epoch.StartTime = ctx.BlockTime()
 		}
 
-		epoch.CurrentEpochStartHeight = ctx.BlockHeight()
+		// keep the start height of a running epoch when importing an exported state
+		if !epoch.EpochCountingStarted {
+			epoch.CurrentEpochStartHeight = ctx.BlockHeight()
+		}
 
 		k.SetEpochInfo(ctx, epoch)
 	}
